@@ -7,8 +7,9 @@
    no crash   : no reader ever answers Panic                         ([panic_free])
    no misread : what a lookup of address h hands out is the checksummed record the index
                 designates for h                                     ([designated], [record_at])
-   The guards under which the table reader is panic free today are [index_guards]; they are
-   exactly what a validating parseTableIndex would have to reject. *)
+   (The consistency conditions the readers need — every reached ordinal < count, every handed-out
+   record at least as long as its checksum — are now checked by the Go code itself and are part of
+   the model, so panic freedom is stated without side conditions.) *)
 From Coq Require Import NArith List Bool.
 From Dolt Require Import Base.Str C10.Model.
 Import ListNotations.
@@ -17,22 +18,6 @@ Local Open Scope N_scope.
 Definition would_panic {A} (r : res A) : Prop := r = Panic.
 Definition panic_free {A} (r : res A) : Prop := r <> Panic.
 Definition panic_freeb {A} (r : res A) : bool := match r with Panic => false | _ => true end.
-
-(* length of record [ord] as getIndexEntry computes it (uint32 of the difference of consecutive offsets) *)
-Definition entry_len (t : tindex) (ord : N) : N :=
-  let prev := if ord =? 0 then 0 else nth (N.to_nat (ord - 1)) (ti_offsets t) 0 in
-  let o := nth (N.to_nat ord) (ti_offsets t) 0 in
-  ((o + 18446744073709551616 - prev) mod 18446744073709551616) mod 4294967296.
-
-Fixpoint below (k : nat) : list N :=
-  match k with O => [] | S k' => below k' ++ [N.of_nat k'] end.
-
-(* the consistency conditions the Go parser does NOT check *)
-Definition ordinals_ok (t : tindex) : bool :=
-  forallb (fun idx => ord_at t idx <? ti_count t) (below (N.to_nat (ti_count t))).
-Definition lengths_ok (t : tindex) : bool :=
-  forallb (fun ord => (4 <=? entry_len t ord) && (entry_len t ord <=? iter_buf_size)) (below (N.to_nat (ti_count t))).
-Definition index_guards (t : tindex) : bool := ordinals_ok t && lengths_ok t.
 
 (* tuple [idx] of the index names address [h] *)
 Definition designated (t : tindex) (h : bytes) (idx : N) : Prop :=
